@@ -46,6 +46,20 @@ func NewProvider(fs filesystem.Filespace, helpersPath, layoutPath, viewPath, ext
 
 // Base return base template (with loaded helpers)
 func (provider *Provider) Base() (*template.Template, error) {
+	return provider.handOut(provider.sharedBase())
+}
+
+// handOut gives a caller its own copy of a cached template: html/template refuses to Clone
+// a template after it has been executed, and the cached base/layout templates are cloned
+// for every new layout/view.
+func (provider *Provider) handOut(tmpl *template.Template, err error) (*template.Template, error) {
+	if err != nil || !provider.isCached {
+		return tmpl, err
+	}
+	return tmpl.Clone()
+}
+
+func (provider *Provider) sharedBase() (*template.Template, error) {
 	if provider.baseTemplate != nil {
 		return provider.baseTemplate, nil
 	}
@@ -80,6 +94,10 @@ func (provider *Provider) base() (baseTemplate *template.Template, err error) {
 
 // Layout return template for named layout (with loaded helpers and layout definitions)
 func (provider *Provider) Layout(name string) (*template.Template, error) {
+	return provider.handOut(provider.sharedLayout(name))
+}
+
+func (provider *Provider) sharedLayout(name string) (*template.Template, error) {
 	if name == "" {
 		name = goathtml.DefaultLayout
 	}
@@ -103,7 +121,7 @@ func (provider *Provider) layout(name string) (layoutTemplate *template.Template
 	if layoutTemplate, ok = provider.layouts[name]; ok {
 		return layoutTemplate, nil
 	}
-	if layoutTemplate, err = provider.Base(); err != nil {
+	if layoutTemplate, err = provider.sharedBase(); err != nil {
 		return nil, err
 	}
 	if layoutTemplate, err = layoutTemplate.Clone(); err != nil {
@@ -164,7 +182,7 @@ func (provider *Provider) view(layoutName, viewName, key string) (viewTemplate *
 		return viewTemplate, nil
 	}
 	// create a new view
-	if layoutTemplate, err = provider.Layout(layoutName); err != nil {
+	if layoutTemplate, err = provider.sharedLayout(layoutName); err != nil {
 		return nil, err
 	}
 	if viewTemplate, err = layoutTemplate.Clone(); err != nil {
